@@ -149,6 +149,28 @@ func ruleTraceCount(c *Ctx, r *Report, rule string) {
 		r.bad(rule, "vm", err.Error(), "")
 		return
 	}
+	// the instruction decoder and the position of its offset parameter
+	decName, decOff := "Prog.disasmInstr", 0
+	if dm, err := c.disModel(); err == nil && dm.Func != nil {
+		decName = dm.FuncName
+		k, found := 0, false
+		for _, f := range dm.Func.Type.Params.List {
+			for _, n := range f.Names {
+				if obj := c.Bcl.TypesInfo.Defs[n]; obj != nil && isInt(obj.Type()) && !found {
+					decOff, found = k, true
+				}
+				k++
+			}
+		}
+	}
+	isDecoderAtPC := func(s string) bool {
+		i := strings.Index(s, "(")
+		if i < 0 || s[:i] != decName || !strings.HasSuffix(s, ")") {
+			return false
+		}
+		args := strings.Split(s[i+1:len(s)-1], ", ")
+		return decOff < len(args) && args[decOff] == "pc"
+	}
 	// on every arm path where the trace decision is true: printStack, disasmInstr(pc) occur before anything else
 	ok := true
 	why := ""
@@ -166,7 +188,7 @@ func ruleTraceCount(c *Ctx, r *Report, rule string) {
 			}
 			hasTrace := false
 			for _, s := range seq {
-				if strings.HasPrefix(s, "printStack(") || strings.HasPrefix(s, "Prog.disasmInstr(") {
+				if strings.HasPrefix(s, "printStack(") || strings.HasPrefix(s, decName+"(") {
 					hasTrace = true
 				}
 			}
@@ -174,7 +196,7 @@ func ruleTraceCount(c *Ctx, r *Report, rule string) {
 				continue
 			}
 			traced++
-			if len(seq) < 2 || !strings.HasPrefix(seq[0], "printStack(") || seq[1] != "Prog.disasmInstr(pc)" {
+			if len(seq) < 2 || !strings.HasPrefix(seq[0], "printStack(") || !isDecoderAtPC(seq[1]) {
 				ok = false
 				why = fmt.Sprintf("%s: trace calls are %v; expected printStack(...) then disasmInstr at the not-yet-advanced pc", arm.Op, seq)
 			}
@@ -193,32 +215,150 @@ func ruleTraceCount(c *Ctx, r *Report, rule string) {
 		return true
 	})
 	r.check(calls == 1, rule, "single-fetch", "readOp is called once per loop iteration (the switch header)", fmt.Sprintf("readOp has %d call sites; exactly one (the dispatch) must fetch and count", calls), c.pos(vm.Loop.Pos()))
-	// disasm walk
+	// disasm walk: a loop over a local offset that starts at 0, runs while offset < len(code), and whose only
+	// assignment to the offset is — unconditionally, once per iteration — the value the instruction decoder
+	// returns for that very offset
 	_, fd := c.find("Prog.disasm")
 	okWalk := false
-	if fd != nil {
+	if dm, err := c.disModel(); err == nil && fd != nil && dm.Func != nil {
+		decoder, _ := c.Bcl.TypesInfo.Defs[dm.Func.Name].(*types.Func)
+		// position of the decoder's offset parameter
+		offIdx, k := -1, 0
+		for _, f := range dm.Func.Type.Params.List {
+			for _, n := range f.Names {
+				if obj := c.Bcl.TypesInfo.Defs[n]; obj != nil && isInt(obj.Type()) && offIdx < 0 {
+					offIdx = k
+				}
+				k++
+			}
+		}
 		ast.Inspect(fd.Body, func(n ast.Node) bool {
 			fs, isF := n.(*ast.ForStmt)
-			if !isF || fs.Post != nil || len(fs.Body.List) != 1 {
+			if !isF || fs.Cond == nil {
 				return true
 			}
-			as, isA := fs.Body.List[0].(*ast.AssignStmt)
-			if !isA || len(as.Lhs) != 1 || len(as.Rhs) != 1 {
-				return true
-			}
-			call, isC := as.Rhs[0].(*ast.CallExpr)
-			if !isC || c.calleeName(call) != "Prog.disasmInstr" || len(call.Args) != 1 {
-				return true
-			}
-			iv := c.objOf(as.Lhs[0])
-			init, isI := fs.Init.(*ast.AssignStmt)
 			cond, isB := stripParens(fs.Cond).(*ast.BinaryExpr)
-			if isI && isB && c.isObj(call.Args[0], iv) && c.isObj(cond.X, iv) && cond.Op == token.LSS {
+			if !isB {
+				return true
+			}
+			var ivE, bound ast.Expr
+			switch cond.Op {
+			case token.LSS:
+				ivE, bound = cond.X, cond.Y
+			case token.GTR:
+				ivE, bound = cond.Y, cond.X
+			default:
+				return true
+			}
+			lc, isL := c.stripConv(bound).(*ast.CallExpr)
+			ivID, isID := stripParens(ivE).(*ast.Ident)
+			if !isL || !isID || c.calleeName(lc) != "len" || len(lc.Args) != 1 || c.fieldPath(lc.Args[0]) != "<Prog>.code" {
+				return true
+			}
+			iv := c.objOf(ivID)
+			// starts at 0: the loop's init, or the variable's only definition outside the loop
+			starts0 := false
+			if init, isI := fs.Init.(*ast.AssignStmt); isI && len(init.Lhs) == 1 && c.isObj(init.Lhs[0], iv) {
 				if k, isK := c.intConst(init.Rhs[0]); isK && k == 0 {
-					if lc, isL := cond.Y.(*ast.CallExpr); isL && c.calleeName(lc) == "len" && c.fieldPath(lc.Args[0]) == "<Prog>.code" {
-						okWalk = true
-					}
+					starts0 = true
 				}
+			} else if fs.Init == nil {
+				defs, zero := 0, false
+				ast.Inspect(fd.Body, func(x ast.Node) bool {
+					if x == ast.Node(fs) {
+						return false
+					}
+					switch x := x.(type) {
+					case *ast.AssignStmt:
+						for i, l := range x.Lhs {
+							if c.isObj(l, iv) {
+								defs++
+								if i < len(x.Rhs) {
+									if k, isK := c.intConst(x.Rhs[i]); isK && k == 0 {
+										zero = true
+									}
+								}
+							}
+						}
+					case *ast.ValueSpec:
+						for i, nm := range x.Names {
+							if c.objOf(nm) == iv {
+								defs++
+								if len(x.Values) == 0 {
+									zero = true
+								} else if i < len(x.Values) {
+									if k, isK := c.intConst(x.Values[i]); isK && k == 0 {
+										zero = true
+									}
+								}
+							}
+						}
+					case *ast.IncDecStmt:
+						if c.isObj(x.X, iv) {
+							defs += 2
+						}
+					}
+					return true
+				})
+				starts0 = defs == 1 && zero
+			}
+			// the loop: one direct statement `iv = decoder(..., iv, ...)`, nothing else writes iv
+			writes, direct := 0, 0
+			check := func(root ast.Node, top bool) {
+				ast.Inspect(root, func(x ast.Node) bool {
+					switch x := x.(type) {
+					case *ast.AssignStmt:
+						for _, l := range x.Lhs {
+							if c.isObj(l, iv) {
+								writes++
+							}
+						}
+					case *ast.IncDecStmt:
+						if c.isObj(x.X, iv) {
+							writes++
+						}
+					case *ast.UnaryExpr:
+						if x.Op == token.AND && c.isObj(x.X, iv) {
+							writes += 2
+						}
+					}
+					return true
+				})
+			}
+			check(fs.Body, true)
+			if fs.Post != nil {
+				check(fs.Post, true)
+			}
+			stmts := append([]ast.Stmt(nil), fs.Body.List...)
+			if fs.Post != nil {
+				stmts = append(stmts, fs.Post)
+			}
+			for _, st := range stmts {
+				as, isA := st.(*ast.AssignStmt)
+				if !isA || len(as.Lhs) != 1 || len(as.Rhs) != 1 || as.Tok != token.ASSIGN || !c.isObj(as.Lhs[0], iv) {
+					continue
+				}
+				call, isC := as.Rhs[0].(*ast.CallExpr)
+				if !isC || decoder == nil || c.callee(call) != types.Object(decoder) || offIdx < 0 || offIdx >= len(call.Args) {
+					continue
+				}
+				if c.isObj(call.Args[offIdx], iv) {
+					direct++
+				}
+			}
+			// no way round the decoder call: no continue / break / goto in the body
+			jumps := false
+			ast.Inspect(fs.Body, func(x ast.Node) bool {
+				if _, isBr := x.(*ast.BranchStmt); isBr {
+					jumps = true
+				}
+				if _, isRet := x.(*ast.ReturnStmt); isRet {
+					jumps = true
+				}
+				return true
+			})
+			if starts0 && writes == 1 && direct == 1 && !jumps {
+				okWalk = true
 			}
 			return true
 		})
